@@ -395,9 +395,18 @@ def _storage_wrapper(env: Env, op: str, orig: Callable[..., Any]) -> Callable[..
         s = env.sched
         a = s.me()
         if a is None or _depth() > 0:
-            r = orig(self, path, *args, **kw)
+            helper = _helper_of(env) if (a is None and _depth() == 0) else None
+            try:
+                with _Nest():
+                    r = orig(self, path, *args, **kw)
+            except BaseException as e:  # noqa: BLE001
+                if helper is not None:
+                    _emit_storage_event(env, helper, op, classify(path), path, args, None, e, None)
+                raise
             if a is None and _depth() == 0 and op in ("write_file", "write_file_cas") and env.backend == "local":
                 _set_vmtime(env, self, path)
+            if helper is not None:
+                _emit_storage_event(env, helper, op, classify(path), path, args, r, None, None)
             return r
         cls = classify(path)
         rctx = getattr(_tls, "resolve", None)
@@ -429,6 +438,15 @@ def _storage_wrapper(env: Env, op: str, orig: Callable[..., Any]) -> Callable[..
     return wrapped
 
 
+def _helper_of(env: Env) -> Optional[Actor]:
+    """A pool worker thread of scan(parallel=...) acts for the reader that is currently running:
+    its storage calls are not scheduling points, but they are events of that reader."""
+    cur = env.sched.current
+    if cur is not None and cur.state == "running" and threading.current_thread().name.startswith("ThreadPoolExecutor"):
+        return cur
+    return None
+
+
 def _set_vmtime(env: Env, backend: Any, path: str) -> None:
     """File mtimes follow the virtual clock (deterministic ages for recovery tie-breaks and GC)."""
     try:
@@ -447,9 +465,23 @@ def _marker_target(path: str, content: Any) -> Optional[str]:
         return None
 
 
+class _EmitAs:
+    """Scheduler facade that stamps events with a given actor (events of helper threads)."""
+
+    def __init__(self, sched: Scheduler, name: str) -> None:
+        self._s = sched
+        self._n = name
+
+    def emit(self, ev: Dict[str, Any]) -> None:
+        self._s.emit(dict(ev, a=self._n))
+
+    def __getattr__(self, k: str) -> Any:
+        return getattr(self._s, k)
+
+
 def _emit_storage_event(env: Env, a: Actor, op: str, cls: str, path: str, args: Tuple[Any, ...], res: Any,
                         err: Optional[BaseException], rctx: Optional[Dict[str, Any]]) -> None:
-    s = env.sched
+    s: Any = env.sched if env.sched.me() is not None else _EmitAs(env.sched, a.name)
     ok = err is None
     errname = type(err).__name__ if err is not None else None
     if rctx is not None and cls in ("hint", "meta", "dir", "other") or (rctx is not None and op in ("list_files", "get_modified_time")):
@@ -649,6 +681,34 @@ def install(env: Env) -> None:
         return res
 
     _patch(dops.DataFileManager, "write_data_file", wdf)
+
+    # data file reads that bypass StorageBackend on the local backend (plain open() of the resolved path)
+    orig_ops = dops.DataFileManager.open_parquet_source
+
+    def ops(self: Any, file_path: str) -> Any:
+        a = env.sched.me()
+        if a is None or env.backend != "local":
+            helper = _helper_of(env) if (a is None and env.backend == "local") else None
+            r = orig_ops(self, file_path)
+            if helper is not None:
+                env.sched.emit({"k": "Read", "f": env.ids.fid(file_path), "cls": "data", "ok": True, "a": helper.name})
+            return r
+        directive = env.sched.gate("storage", op="open_parquet", cls="data", path=file_path)
+        if isinstance(directive, Fault) and directive.when in ("before", "async"):
+            env.sched.emit({"k": "Fault", "op": "open_parquet", "cls": "data", "when": directive.when, "kind": directive.kind, "f": env.ids.fid(file_path)})
+            raise directive.make(f"open_parquet({file_path})")
+        try:
+            with _Nest():
+                res = orig_ops(self, file_path)
+        except BaseException as e:  # noqa: BLE001
+            missing = isinstance(e, FileNotFoundError)
+            env.sched.emit({"k": "Exists" if missing else "Read", "f": env.ids.fid(file_path), "cls": "data", "res": False,
+                            "ok": missing, "err": type(e).__name__})
+            raise
+        env.sched.emit({"k": "Read", "f": env.ids.fid(file_path), "cls": "data", "ok": True})
+        return res
+
+    _patch(dops.DataFileManager, "open_parquet_source", ops)
 
     # flock
     orig_try = fl.FileLock._try_acquire_once
